@@ -324,7 +324,7 @@ def gen_c11(seed, size="quick"):
     dom = r.choice([6, 10, 16])
     edb(t, r, r.choice([15, 40, 90]) if size == "quick" else r.choice([40, 90, 200]), dom)
     t.meta["subsumed"] = []
-    kinds = r.sample(["shortest", "pareto", "latest", "shortest2"], r.randrange(1, 3))
+    kinds = r.sample(["shortest", "pareto", "latest", "shortest2", "countdown"], r.randrange(1, 3))
     for kind in kinds:
         if kind == "shortest":
             bound = r.choice([12, 20, 30])
@@ -345,9 +345,21 @@ def gen_c11(seed, size="quick"):
             t.extra_text.append("sq(x,y,d1) <= sq(x,y,d2) :- d2 < d1.")
             t.meta["subsumed"].append({"rel": "sq", "dom": "lt2", "monotone": True})
             t.outputs.append("sq")
+        elif kind == "countdown":
+            # every iteration derives a tuple that dominates the previous one: a chain a > b > c ... arriving one per iteration
+            start = r.choice([6, 10, 15])
+            t.decls.append(".decl cd(k:number,v:number) btree_delete")
+            t.rules.append({"head": ("cd", [V("k"), C(start)]), "body": [("atom", "n1", [V("k")])]})
+            t.rules.append({"head": ("cd", [V("k"), ADD(V("v"), C(-1))]), "body": [("atom", "cd", [V("k"), V("v")]), ("cmp", ">", V("v"), C(0))]})
+            t.rules.append({"head": ("cd", [V("k"), ADD(V("v"), C(-2))]), "body": [("atom", "cd", [V("k"), V("v")]), ("cmp", ">", V("v"), C(1)), ("atom", "e1", [V("k"), U])]})
+            t.extra_text.append("cd(k,v1) <= cd(k,v2) :- v2 < v1.")
+            t.meta["subsumed"].append({"rel": "cd", "dom": "lt1", "monotone": True})
+            t.outputs.append("cd")
         elif kind == "pareto":
             t.decls.append(".decl pf(k:number,a:number,b:number) btree_delete")
             t.rules.append({"head": ("pf", [V("k"), V("a"), V("b")]), "body": [("atom", "e2", [V("k"), V("a"), V("b")])]})
+            # a second non-recursive rule for the same relation (dominators and dominated tuples come from different rules)
+            t.rules.append({"head": ("pf", [V("k"), V("b"), V("a")]), "body": [("atom", "e2", [V("k"), V("a"), V("b")]), ("cmp", "<", V("a"), C(3))]})
             t.extra_text.append("pf(k,a1,b1) <= pf(k,a2,b2) :- a2 < a1, b2 <= b1.")
             t.extra_text.append("pf(k,a1,b1) <= pf(k,a2,b2) :- a2 <= a1, b2 < b1.")
             t.meta["subsumed"].append({"rel": "pf", "dom": "pareto", "monotone": True})
@@ -355,6 +367,7 @@ def gen_c11(seed, size="quick"):
         else:
             t.decls.append(".decl ver(k:number,v:number) btree_delete")
             t.rules.append({"head": ("ver", [V("k"), V("v")]), "body": [("atom", "e1", [V("k"), V("v")])]})
+            t.rules.append({"head": ("ver", [V("k"), ADD(V("v"), C(1))]), "body": [("atom", "e1", [V("v"), V("k")]), ("cmp", "<", V("v"), C(5))]})
             t.extra_text.append("ver(k,v1) <= ver(k,v2) :- v1 < v2.")
             t.meta["subsumed"].append({"rel": "ver", "dom": "gt1", "monotone": True})
             t.outputs.append("ver")
